@@ -435,7 +435,7 @@ func TestC24(t *testing.T) {
 	run.Assume("time is the injected clock only; no timeline instant lies exactly FailTimeout after a failure (After vs >= is not part of the statement)")
 	run.Assume("most timelines use a clock.Mock whose Now is set directly (the stock Mock.Add sleeps 1ms of real time per call); a slice runs on the stock mock")
 
-	n := run.N(30000, 1000000)
+	n := run.N(30000, 600000)
 	nStock := run.N(1500, 12000)
 	base := run.Rand("timelines").Int63()
 	replay := run.ReplayCase()
